@@ -324,6 +324,7 @@ func (handle *writeTxnHandle) Abort() {
 	}
 
 	txn := handle.writeTxnState
+	verifHook("abort.start", txn.db)
 	for _, table := range txn.tableEntries {
 		if table.locked {
 			table.meta.released()
@@ -333,6 +334,7 @@ func (handle *writeTxnHandle) Abort() {
 	txn.duration.Store(uint64(time.Since(txn.acquiredAt)))
 
 	txn.smus.Unlock()
+	verifHook("abort.unlocked", txn.db)
 	txn.db.metrics.WriteTxnDuration(
 		txn.handle,
 		txn.tableNames,
@@ -369,6 +371,7 @@ func (handle *writeTxnHandle) Commit() ReadTxn {
 	txn.duration.Store(uint64(time.Since(txn.acquiredAt)))
 
 	db := txn.db
+	verifHook("commit.start", db)
 
 	// Commit each individual changed index to each table.
 	// We don't notify yet (CommitOnly) as the root needs to be updated
@@ -393,6 +396,8 @@ func (handle *writeTxnHandle) Commit() ReadTxn {
 		db.metrics.ObjectCount(name, table.numObjects())
 		db.metrics.Revision(name, table.revision)
 	}
+
+	verifHook("commit.indexesCommitted", db)
 
 	// Acquire the lock on the root tree to sequence the updates to it. We can acquire
 	// it after we've built up the new table entries above, since changes to those were
@@ -433,20 +438,24 @@ func (handle *writeTxnHandle) Commit() ReadTxn {
 	// atomically store it.
 	db.root.Store(&root)
 	db.mu.Unlock()
+	verifHook("commit.rootStored", db)
 
 	// Now that new root is committed, we can notify readers by closing the watch channels of
 	// mutated radix tree nodes in all changed indexes and on the root itself.
 	for _, txn := range txnToNotify {
 		txn.notify()
 	}
+	verifHook("commit.notified", db)
 
 	// With the root pointer updated, we can now release the tables for the next write transaction.
 	txn.smus.Unlock()
+	verifHook("commit.unlocked", db)
 
 	// Notify table initializations
 	for _, ch := range initChansToClose {
 		close(ch)
 	}
+	verifHook("commit.initClosed", db)
 
 	txn.db.metrics.WriteTxnDuration(
 		txn.handle,
